@@ -302,6 +302,9 @@ def check_circuit_bind(ctx):
 
 
 def run(ctx):
+    from ..lints import check_caches
+
+    check_caches(ctx, "C06-D7 caches", ['circuits._circuit', 'circuits._gates', 'circuits._operations', 'circuits._wavefunction_operations'])
     repo = ctx.repo
     classes = _classes(repo)
     nb = 0
